@@ -84,19 +84,19 @@ def gen_cases(ctx):
         cases.append(d)
 
     # tabular: exhaustive geometry for small widths
-    wmax = 9 if thorough else 6
+    wmax = 12 if thorough else 6
     for w in range(1, wmax + 1):
         for p in range(1, w + 1):
             for s in range(1, w + 1):
                 if thorough or rng.random() < 0.5 * scale:
                     add("tab", (w,), p, s)
     # time series (T, W) and images (H, W, C): per-axis and scalar geometry
-    n2d = (260 if thorough else 45) * scale
+    n2d = (1200 if thorough else 45) * scale
     for _ in range(n2d):
         kind = "ts" if rng.random() < 0.35 else "img"
-        a, b = int(rng.integers(1, 7 if not thorough else 10)), int(rng.integers(1, 7 if not thorough else 10))
+        a, b = int(rng.integers(1, 7 if not thorough else 13)), int(rng.integers(1, 7 if not thorough else 13))
         if a == b and rng.random() < 0.7:
-            b = b % 6 + 1
+            b = b % (12 if thorough else 6) + 1
         shape = (a, b) if kind == "ts" else (a, b, int(rng.integers(1, 4)))
         if rng.random() < 0.3:
             p = int(rng.integers(1, min(a, b) + 1))
